@@ -18,6 +18,10 @@ CLAIMED = {
    technique="bounded exhaustive enumeration of graphs x per-node substitution plans x orders on the real container with a real SmartInstantiationAware post-processor; version-consistency oracle",
    text="All 729 labelled 3-node graphs x all 6^3 wrap plans x both base orders (plus 2-node programs with every single iteration-order deviation) are started for real; if Run succeeds every holder and the by-name lookup must see one object per component.",
    note="Trusted: iteration-order shim; wrappers are assignable only to interface slots. Outside: n>3 (thorough: n=4, two kinds), substitution in BeforeInstantiation."),
+ "C04": dict(engine="E3 op-tree enumeration on the real singleton registry + E1 starts with single faults", design="§7 C04",
+   technique="explicit-state exploration of all well-nested registry operation trees (<=4 ops, nesting <=2; thorough <=5/3) on fresh real registries against a reference automaton, plus the automaton monitored on real starts with every single injected fault followed by repeated lookups",
+   text="Layer 1 enumerates every operation tree over {Get(n,early?), InCreation(n), Create(n){body}->ok|err x ok|failing early factory} on names {a,b} up to the bound on a fresh real registry, checking on every step: one early reference per attempt, published instance is the only answer afterwards, no re-run of the factory, and after a failed creation no in-creation mark, no instance with nil error, and a new Create re-runs the factory. Layers 2/3 monitor the same automaton on every registry call of 3-node graph starts with every single fault site armed, then look every name up three times.",
+   note="Trusted: the monitoring wrapper around the real registry (installed through an overlay-added constructor). Outside: >2 names / >5 operations at registry level; pairs of faults (C09 covers pairs for its own oracle)."),
  "C05": dict(engine=E1, design="§7 C05",
    technique="bounded exhaustive enumeration of graphs x lazy/eager x observer sets x iteration orders (deviation bound 1) on the real container; event-log oracle",
    text="All 3-node graphs x 8 lazy assignments x {0,1,2} observing processors x orders (all 6 base permutations; every single non-default iteration answer) are started for real; the event log must show exactly one populate->before->AfterPropertiesSet->Init->after sequence per created node, population complete before before-init (snapshot), non-back-depending dependencies initialised first, lazy nodes only on demand and exactly once.",
